@@ -221,7 +221,7 @@ func lenBucket(n int) string {
 // element can hold.
 func nameLens(min, max int) *rapid.Generator[int] {
 	edge := []int{}
-	for _, v := range []int{0, 1, 2, 7, 8, 9, 15, 16, 17, 254, 255, 256, 257, 65533, 65534, 65535} {
+	for _, v := range []int{0, 1, 2, 7, 8, 9, 15, 16, 17, 254, 255, 256, 257, 65533, 65534, 65535, 65536, 65537, 65543, 70000, 131072} {
 		if v >= min && v <= max {
 			edge = append(edge, v)
 		}
